@@ -8,6 +8,8 @@ accepts must satisfy the scheme's defining equation as evaluated here (Python cu
 elliptic-curve schemes, lower-layer library primitives pc_map / g1_mul / g1_map ... for pairing schemes).
 """
 import ctypes
+import re
+import time
 
 from ..rt import MonitorViolation
 from ..ctx import hx
@@ -99,7 +101,7 @@ class EcDsa(Base):
 
     def model_ecdsa(self, r, s, msg, pre, Q):
         R = self.R
-        return cprt.ecdsa_verify(R.EC, R.G, R.n, r, s, self.digest(msg, pre), Q)
+        return cprt.ecdsa_verify(R.EC, R.G, R.n, r, s, self.digest(msg, pre), Q, R.FCv.lin)
 
     def ecss_e(self, msg, rx):
         R = self.R
@@ -112,7 +114,7 @@ class EcDsa(Base):
             return False
         if Q is None or not E.on_curve(Q):
             return False
-        P = E.add(E.mul(s, R.G), E.mul(e, Q))
+        P = R.FCv.lin(s, R.G, e, Q)
         if P is None or P[0] % n == 0:
             return False
         return self.ecss_e(msg, P[0]) == e
@@ -310,12 +312,12 @@ class EcDsa(Base):
             # forgeries that need no private key when the verifier forgets to validate Q
             if scheme == "ecdsa":
                 e_ = cprt.bits2int(self.digest(msg, pre), n) % n
-                X = E.mul(e_, G) if e_ else None
+                X = R.FCv.mul(e_, G) if e_ else None
                 if X is not None and X[0] % n:
                     cs.append(("Q=infinity,forged", X[0] % n, 1, msg, None))
                 # valid alternative built with the private key: another nonce
                 k = rng.randrange(1, n)
-                X = E.mul(k, G)
+                X = R.FCv.mul(k, G)
                 r2 = X[0] % n
                 s2 = pow(k, -1, n) * (e_ + dv * r2) % n
                 if r2 and s2:
@@ -323,11 +325,11 @@ class EcDsa(Base):
                     cs.append(("resigned,s=n-s", r2, n - s2, msg, Q))
             else:
                 sv = rng.randrange(1, n)
-                X = E.mul(sv, G)
+                X = R.FCv.mul(sv, G)
                 if X[0] % n:
                     cs.append(("Q=infinity,forged", self.ecss_e(msg, X[0]), sv, msg, None))
                 k = rng.randrange(1, n)
-                X = E.mul(k, G)
+                X = R.FCv.mul(k, G)
                 e2 = self.ecss_e(msg, X[0])
                 cs.append(("resigned", e2, (k - dv * e2) % n, msg, Q))
                 # commitment at infinity: e = H(m || 0), s = -e d
@@ -420,8 +422,668 @@ def run_ecdsa(ctx):
     ctx.note("error_codes_seen", {str(k): v for k, v in R.err_codes.items()})
 
 
+
+# =====================================================================================================
+# Generic mutation engine: a scheme instance exposes named components living in library memory
+# =====================================================================================================
+class Comp(object):
+    """one component of a (message, signature, key) triple"""
+
+    def __init__(self, name, kind, role, ptr=None, val=None, full=False):
+        self.name, self.kind, self.role, self.ptr, self.val, self.full = name, kind, role, ptr, val, full
+
+
+class Scheme(Base):
+    """subclasses define: name, verfn, setup(), sign(msg) -> bool, comps() -> [Comp], ver() -> CallResult,
+    eqn() -> True / False / None (None: the definition does not decide this input)"""
+    msg_kind = "bytes"       # 'bytes' | 'bn' | None
+    maxlen = 300
+    curve_model = True       # the Python curve model is available for 'ec' components
+
+    def __init__(self, ctx, R):
+        Base.__init__(self, ctx, R)
+        self.tmp = {}
+
+    # ------------------------------------------------------------------ component access
+    def snap(self, c):
+        R = self.R
+        if c.kind == "bytes":
+            return c.val
+        return R.snap(c.ptr, R.size_of(c.kind))
+
+    def restore(self, c, s):
+        if c.kind == "bytes":
+            c.val = s
+        else:
+            self.R.restore(c.ptr, s)
+
+    def describe(self):
+        R = self.R
+        out = {}
+        for c in self.comps():
+            if c.kind == "bytes":
+                out[c.name] = c.val.hex()
+            elif c.kind == "bn":
+                v = R.bn_get(c.ptr)[0]
+                out[c.name] = hx(v) if v is not None else None
+            else:
+                out[c.name] = R.snap(c.ptr, R.size_of(c.kind)).hex()
+        return out
+
+    # ------------------------------------------------------------------ mutation generators
+    def muts(self, c, full):
+        """-> list of (class, apply()) ; apply writes the mutated value into the component"""
+        R, rng = self.R, self.rng
+        n = R.n
+        out = []
+        if c.kind == "bn":
+            v = R.bn_get(c.ptr)[0]
+
+            def put(x):
+                return lambda: R.bn_put(c.ptr, x)
+            for cls, x in (("zero", 0), ("one", 1), ("n", n), ("n+-1", n + 1), ("n+-1", n - 1), ("v+kn", v + n), ("v+kn", v + 2 * n),
+                           ("n-v", n - v), ("neg", -v), ("v+-1", v + 1), ("v+-1", v - 1),
+                           ("big", rng.getrandbits(300) | (1 << 299)), ("random", rng.randrange(n))):
+                if x != v:
+                    out.append((cls, put(x)))
+            bits = range(257) if full else rng.sample(range(257), 4)
+            for b in bits:
+                out.append(("bitflip", put(v ^ (1 << b))))
+        elif c.kind == "bytes":
+            v = c.val
+
+            def setv(x):
+                def f():
+                    c.val = x
+                return f
+            nb = 8 * len(v)
+            bits = range(nb) if (full and nb <= 512) else rng.sample(range(nb), min(nb, 6))
+            for b in bits:
+                m = bytearray(v)
+                m[b // 8] ^= 1 << (b % 8)
+                out.append(("bitflip", setv(bytes(m))))
+            if v:
+                out.append(("truncated", setv(v[:-1])))
+                out.append(("truncated", setv(v[1:])))
+                out.append(("empty", setv(b"")))
+            out.append(("extended", setv(v + b"\x00")))
+            out.append(("extended", setv(b"\x00" + v)))
+            out.append(("random", setv(self.rbytes(max(1, len(v))))))
+        elif c.kind in ("ec", "g1"):
+            p = R.curve["p"]
+            E = R.EC
+            P = R.pt(c.ptr)
+
+            def putp(Q):
+                return lambda: R.pt_put(c.ptr, Q)
+            out.append(("identity", putp(None)))
+            out.append(("random-valid", putp(R.FCv.mul(rng.randrange(1, n), R.G))))
+            out.append(("generator", putp(R.G)))
+            out.append(("zero-zero", putp((0, 0))))
+            if P is not None:
+                out.append(("negated", putp(E.neg(P))))
+                out.append(("offcurve", putp((P[0], (P[1] + 1) % p))))
+                out.append(("offcurve", putp(((P[0] + 1) % p, P[1]))))
+                out.append(("doubled", putp(E.dbl(P))))
+                out.append(("plus-G", putp(E.add(P, R.G))))
+                bits = range(256) if full else rng.sample(range(256), 3)
+                for b in bits:
+                    out.append(("bitflip", putp(((P[0] ^ (1 << b)) % p, P[1]))))
+                for b in (range(256) if full else rng.sample(range(256), 3)):
+                    out.append(("bitflip", putp((P[0], (P[1] ^ (1 << b)) % p))))
+        elif c.kind == "g2":
+            p = R.curve["p"]
+            x, y, z, _ = R.ep2_get(c.ptr)
+            out.append(("identity", lambda: R.call("ep2_set_infty", c.ptr)))
+            out.append(("random-valid", lambda: R.call("g2_rand", c.ptr)))
+            out.append(("generator", lambda: R.call("g2_get_gen", c.ptr)))
+            out.append(("zero-zero", lambda: R.ep2_put(c.ptr, (0, 0), (0, 0))))
+            if z != (0, 0):
+                out.append(("negated", lambda: R.call("g2_neg", c.ptr, c.ptr)))
+                out.append(("offcurve", lambda: R.ep2_put(c.ptr, x, ((y[0] + 1) % p, y[1]))))
+                out.append(("offcurve", lambda: R.ep2_put(c.ptr, (x[0], (x[1] + 1) % p), y)))
+
+                def dbl():
+                    R.call("g2_dbl", c.ptr, c.ptr)
+                    R.call("g2_norm", c.ptr, c.ptr)
+                out.append(("doubled", dbl))
+                out.append(("non-subgroup", lambda: self.g2_nonmember(c.ptr)))
+                out.append(("plus-non-subgroup", lambda: self.g2_plus_nonmember(c.ptr)))
+                for b in (range(256) if full else rng.sample(range(256), 3)):
+                    i = rng.randrange(2)
+
+                    def fl(b=b, i=i):
+                        xx = list(x)
+                        xx[i] = (xx[i] ^ (1 << b)) % p
+                        R.ep2_put(c.ptr, tuple(xx), y)
+                    out.append(("bitflip", fl))
+                for b in rng.sample(range(256), 3):
+                    i = rng.randrange(2)
+
+                    def fl(b=b, i=i):
+                        yy = list(y)
+                        yy[i] = (yy[i] ^ (1 << b)) % p
+                        R.ep2_put(c.ptr, x, tuple(yy))
+                    out.append(("bitflip", fl))
+        elif c.kind == "gt":
+            p = R.curve["p"]
+            co = R.fpx_get(c.ptr, 12)[0]
+            out.append(("unity", lambda: R.call("fp12_set_dig", c.ptr, 1)))
+            out.append(("zero", lambda: R.call("fp12_zero", c.ptr)))
+            out.append(("squared", lambda: R.call("fp12_sqr", c.ptr, c.ptr)))
+            out.append(("inverted", lambda: R.call("fp12_inv", c.ptr, c.ptr)))
+            out.append(("random-gt", lambda: R.call("gt_rand", c.ptr)))
+            for _ in range(12 if full else 3):
+                i, b = rng.randrange(12), rng.randrange(256)
+
+                def fl(i=i, b=b):
+                    cc = list(co)
+                    cc[i] = (cc[i] ^ (1 << b)) % p
+                    R.fpx_put(c.ptr, cc)
+                out.append(("bitflip", fl))
+        return out
+
+    # ------------------------------------------------------------------ the engine
+    def mutate(self, cname, full_names=(), sample=0.05, swaps=True):
+        """run every mutation of every component of the current honest instance"""
+        ctx, R, rng = self.ctx, self.R, self.rng
+        comps = self.comps()
+        for c in comps:
+            full = c.name in full_names
+            saved = self.snap(c)
+            lst = self.muts(c, full)
+            if swaps:
+                for o in comps:
+                    if o is not c and o.kind == c.kind and c.kind != "bytes":
+                        so = self.snap(o)
+                        if so != saved:
+                            lst.append(("swapped", (lambda so=so: self.restore(c, so))))
+            for cls, apply in lst:
+                key = "%s|%s:%s" % (self.verfn, re.sub(r"\d*\[\d+\]|\d+$", "", c.name), cls)
+                if not ctx.begin(key, [cname, self.name]):
+                    continue
+                try:
+                    apply()
+                    ctx.cur_desc = [cname, self.describe()]
+                    lv = self.verdict(self.ver())
+                    if lv != "rej" or rng.random() < sample:
+                        ev = self.eqn()
+                        if ev is None:
+                            ctx.add("undecided_by_definition")
+                        else:
+                            self.judge(lv, ev, {"lib": lv, "equation": ev})
+                            if lv == "acc" and ev and cls in ("v+kn", "neg", "big", "n", "n+-1"):
+                                self.noncanon[key] = self.noncanon.get(key, 0) + 1
+                    else:
+                        ctx.ok()
+                except MonitorViolation as e:
+                    ctx.fail(ctx.cur_key + "|" + e.kind, e.detail)
+                finally:
+                    self.restore(c, saved)
+                    ctx.end()
+
+    def honest(self, cname, msg, what="honest", eq_rate=1.0):
+        """sign msg and require acceptance by the library and (on a sample) by the equation"""
+        ctx = self.ctx
+        L = len(msg) if isinstance(msg, (bytes, bytearray)) else None
+        if not ctx.begin("%s|%s" % (self.sigfn, what), [cname, L if L is not None else hx(msg)]):
+            return False
+        ok = False
+        try:
+            ok = self.sign(msg)
+            ctx.check(ok, ctx.cur_key + "|unexpected-error")
+            if ok:
+                ctx.cur_desc = [cname, self.describe()]
+                lv = self.verdict(self.ver())
+                ctx.check(lv == "acc", "%s|%s|rejected" % (self.verfn, what), {"lib": lv})
+                if eq_rate >= 1.0 or self.rng.random() < eq_rate:
+                    ev = self.eqn()
+                    ctx.check(ev is not False, "%s|%s|equation-fails" % (self.sigfn, what))
+        except MonitorViolation as e:
+            ctx.fail(ctx.cur_key + "|" + e.kind, e.detail)
+        finally:
+            ctx.end()
+        return ok
+
+    def finish(self):
+        if self.noncanon:
+            self.ctx.note("noncanonical_accepted", sorted(set(self.ctx.info.get("noncanonical_accepted", [])) | set(self.noncanon)))
+
+
+# =====================================================================================================
+# EC schemes with Python models: vBNN-IBS, PoK / SoK of discrete logarithms, extendable ring signatures
+# =====================================================================================================
+class EcScheme(Scheme):
+    def scal(self, c):
+        return self.R.bn_get(c)[0]
+
+    def lin(self, k1, P1, k2, P2):
+        """k1 P1 + k2 P2 in the model"""
+        return self.R.FCv.lin(k1, P1, k2, P2)
+
+    def points_ok(self, *pts):
+        E = self.R.EC
+        return all(P is None or E.on_curve(P) for P in pts)
+
+    def hn(self, data):
+        return int.from_bytes(H(data), "big") % self.R.n
+
+
+class Vbnn(EcScheme):
+    name, sigfn, verfn = "vbnn", "cp_vbnn_sig", "cp_vbnn_ver"
+
+    def setup(self):
+        R = self.R
+        self.msk, self.mpk = R.new("bn"), R.new("ec")
+        self.sk, self.pk = R.new("bn"), R.new("ec")
+        self.r, self.z, self.h = R.new("ec"), R.new("bn"), R.new("bn")
+        self.id = Comp("id", "bytes", "key", val=self.rbytes(self.rng.choice([0, 1, 10, 40])))
+        self.msg = Comp("msg", "bytes", "msg", val=b"")
+        if R.call("cp_vbnn_gen", self.msk, self.mpk).i != R.OK:
+            return False
+        i = R.bytes_in(self.id.val)
+        try:
+            return R.call("cp_vbnn_gen_prv", self.sk, self.pk, self.msk, i, len(self.id.val)).i == R.OK
+        finally:
+            R.free(i)
+
+    def sign(self, msg):
+        R = self.R
+        self.msg.val = msg
+        i, m = R.bytes_in(self.id.val), R.bytes_in(msg)
+        try:
+            res = R.call("cp_vbnn_sig", self.r, self.z, self.h, i, len(self.id.val), m, len(msg), self.sk, self.pk)
+        finally:
+            R.free(i)
+            R.free(m)
+        return not res.caught and res.i == R.OK
+
+    def comps(self):
+        return [Comp("R", "ec", "sig", self.r), Comp("z", "bn", "sig", self.z), Comp("h", "bn", "sig", self.h),
+                self.id, self.msg, Comp("mpk", "ec", "pk", self.mpk)]
+
+    def ver(self):
+        R = self.R
+        i, m = R.bytes_in(self.id.val), R.bytes_in(self.msg.val)
+        try:
+            return R.call("cp_vbnn_ver", self.r, self.z, self.h, i, len(self.id.val), m, len(self.msg.val), self.mpk)
+        finally:
+            R.free(i)
+            R.free(m)
+
+    def eqn(self):
+        R = self.R
+        E, n = R.EC, R.n
+        Rp, mpk = R.pt(self.r), R.pt(self.mpk)
+        z, h = self.scal(self.z), self.scal(self.h)
+        if not self.points_ok(Rp, mpk) or Rp is None or mpk is None:
+            return False
+        c = self.hn(self.id.val + R.enc(Rp))
+        T = self.lin(c, mpk, 1, Rp)
+        Z = self.lin(z, R.G, -h, T)
+        return self.hn(self.id.val + self.msg.val + R.enc(Rp) + R.enc(Z)) == h
+
+
+class PokDl(EcScheme):
+    name, sigfn, verfn = "pokdl", "cp_pokdl_prv", "cp_pokdl_ver"
+    msg_kind = None
+
+    def setup(self):
+        R = self.R
+        self.c, self.r, self.x, self.y = R.new("bn"), R.new("bn"), R.new("bn"), R.new("ec")
+        xv = self.rng.randrange(1, R.n)
+        R.bn_put(self.x, xv)
+        R.pt_put(self.y, R.EC.mul(xv, R.G))
+        return True
+
+    def sign(self, msg):
+        R = self.R
+        res = R.call("cp_pokdl_prv", self.c, self.r, self.y, self.x)
+        return not res.caught and res.i == R.OK
+
+    def comps(self):
+        return [Comp("c", "bn", "sig", self.c), Comp("r", "bn", "sig", self.r), Comp("y", "ec", "pk", self.y)]
+
+    def ver(self):
+        return self.R.call("cp_pokdl_ver", self.c, self.r, self.y)
+
+    def eqn(self):
+        R = self.R
+        Y = R.pt(self.y)
+        if not self.points_ok(Y):
+            return False
+        c, r = self.scal(self.c), self.scal(self.r)
+        T = self.lin(r, R.G, c, Y)
+        buf = R.enc(R.G) + R.enc(Y) + R.enc(T)
+        buf += bytes(3 * (R.FC + 1) - len(buf))
+        return self.hn(buf) == c
+
+
+class SokDl(PokDl):
+    name, sigfn, verfn = "sokdl", "cp_sokdl_sig", "cp_sokdl_ver"
+    msg_kind = "bytes"
+
+    def setup(self):
+        self.msg = Comp("msg", "bytes", "msg", val=b"")
+        return PokDl.setup(self)
+
+    def sign(self, msg):
+        R = self.R
+        self.msg.val = msg
+        m = R.bytes_in(msg)
+        try:
+            res = R.call("cp_sokdl_sig", self.c, self.r, m, len(msg), self.y, self.x)
+        finally:
+            R.free(m)
+        return not res.caught and res.i == R.OK
+
+    def comps(self):
+        return PokDl.comps(self) + [self.msg]
+
+    def ver(self):
+        R = self.R
+        m = R.bytes_in(self.msg.val)
+        try:
+            return R.call("cp_sokdl_ver", self.c, self.r, m, len(self.msg.val), self.y)
+        finally:
+            R.free(m)
+
+    def eqn(self):
+        R = self.R
+        Y = R.pt(self.y)
+        if not self.points_ok(Y):
+            return False
+        c, r = self.scal(self.c), self.scal(self.r)
+        T = self.lin(r, R.G, c, Y)
+        if Y is None or T is None:
+            return None     # shorter encodings leave never-written bytes of the hashed buffer
+        return self.hn(self.msg.val + R.enc(R.G) + R.enc(Y) + R.enc(T)) == c
+
+
+class PokOr(EcScheme):
+    """disjunctive proofs; with_msg selects the signature-of-knowledge form, gens the two-generator form"""
+    msg_kind = None
+
+    def __init__(self, ctx, R, with_msg=False, gens=False, first=0):
+        EcScheme.__init__(self, ctx, R)
+        self.with_msg, self.gens, self.first = with_msg, gens, first
+        if with_msg:
+            self.name = "sokor" + ("-g" if gens else "") + ("-first" if first else "")
+            self.sigfn, self.verfn = "cp_sokor_sig", "cp_sokor_ver"
+            self.msg_kind = "bytes"
+        else:
+            self.name, self.sigfn, self.verfn = "pokor", "cp_pokor_prv", "cp_pokor_ver"
+
+    def setup(self):
+        R, rng = self.R, self.rng
+        E = R.EC
+        bs, es = R.bn_sz, R.ep_sz
+        self.c, self.r, self.y = R.arr("bn", 2), R.arr("bn", 2), R.arr("ec", 2)
+        self.g = R.arr("ec", 2) if self.gens else 0
+        self.x = R.new("bn")
+        self.msg = Comp("msg", "bytes", "msg", val=b"")
+        xv = rng.randrange(1, R.n)
+        R.bn_put(self.x, xv)
+        gs = [R.G, R.G]
+        if self.gens:
+            gs = [R.G, E.mul(rng.randrange(2, R.n), R.G)]
+            for i in range(2):
+                R.pt_put(self.g + i * es, gs[i])
+        known = 0 if (self.with_msg and self.first) else 1
+        for i in range(2):
+            R.pt_put(self.y + i * es, E.mul(xv, gs[i]) if i == known else E.mul(rng.randrange(1, R.n), R.G))
+        return True
+
+    def sign(self, msg):
+        R = self.R
+        if not self.with_msg:
+            res = R.call("cp_pokor_prv", self.c, self.r, self.y, self.x)
+        else:
+            self.msg.val = msg
+            m = R.bytes_in(msg)
+            try:
+                res = R.call("cp_sokor_sig", self.c, self.r, m, len(msg), self.y, self.g, self.x, self.first)
+            finally:
+                R.free(m)
+        return not res.caught and res.i == R.OK
+
+    def comps(self):
+        R = self.R
+        bs, es = R.bn_sz, R.ep_sz
+        cs = [Comp("c0", "bn", "sig", self.c), Comp("c1", "bn", "sig", self.c + bs),
+              Comp("r0", "bn", "sig", self.r), Comp("r1", "bn", "sig", self.r + bs),
+              Comp("y0", "ec", "pk", self.y), Comp("y1", "ec", "pk", self.y + es)]
+        if self.gens:
+            cs += [Comp("g0", "ec", "pk", self.g), Comp("g1", "ec", "pk", self.g + es)]
+        if self.with_msg:
+            cs.append(self.msg)
+        return cs
+
+    def ver(self):
+        R = self.R
+        if not self.with_msg:
+            return R.call("cp_pokor_ver", self.c, self.r, self.y)
+        m = R.bytes_in(self.msg.val)
+        try:
+            return R.call("cp_sokor_ver", self.c, self.r, m, len(self.msg.val), self.y, self.g)
+        finally:
+            R.free(m)
+
+    def orproof(self, c, r, ys, gs, msg, sized):
+        """the disjunction check shared by pokor / sokor / ers: None when the hashed buffer is not fully written"""
+        R = self.R
+        buf = b""
+        for i in range(2):
+            if not self.points_ok(ys[i], gs[i]):
+                return False
+            T = self.lin(r[i], gs[i], c[i], ys[i])
+            buf += R.enc(gs[i]) + R.enc(ys[i]) + R.enc(T)
+        full = 6 * (R.FC + 1)
+        if len(buf) < full:
+            if not sized:
+                return None
+            buf += bytes(full - len(buf))
+        return (self.hn(msg + buf) - c[0] - c[1]) % R.n == 0
+
+    def eqn(self):
+        R = self.R
+        bs, es = R.bn_sz, R.ep_sz
+        c = [self.scal(self.c), self.scal(self.c + bs)]
+        r = [self.scal(self.r), self.scal(self.r + bs)]
+        ys = [R.pt(self.y), R.pt(self.y + es)]
+        gs = [R.pt(self.g), R.pt(self.g + es)] if self.gens else [R.G, R.G]
+        return self.orproof(c, r, ys, gs, self.msg.val if self.with_msg else b"", not self.with_msg)
+
+
+class Ers(PokOr):
+    """extendable ring signature: ring of `size` members built by cp_ers_sig + cp_ers_ext"""
+
+    def __init__(self, ctx, R, size=1, linkable=False):
+        EcScheme.__init__(self, ctx, R)
+        self.size, self.linkable = size, linkable
+        self.name = ("smlers" if linkable else "ers") + "-%d" % size
+        self.pre = "cp_smlers" if linkable else "cp_ers"
+        self.sigfn, self.verfn = self.pre + "_sig", self.pre + "_ver"
+        self.msg_kind = "bytes"
+
+    def setup(self):
+        R = self.R
+        K = R.K
+        self.st = K["sizeof_smlers_st"] if self.linkable else K["sizeof_ers_st"]
+        N = self.size
+        self.ring = R.mem(self.st * N, 0)
+        for i in range(N):
+            for off in self.bn_offsets():
+                R.call("bn_make", self.ring + i * self.st + off, R.BN_SIZE)
+                R.bn_put(self.ring + i * self.st + off, 0)
+            for off in self.ec_offsets():
+                R.call("ep_set_infty", self.ring + i * self.st + off)
+        self.td, self.pp = R.new("bn"), R.new("ec")
+        self.sks = [R.new("bn") for _ in range(N)]
+        self.pks = [R.new("ec") for _ in range(N)]
+        self.cnt = R.cell(0)
+        self.msg = Comp("msg", "bytes", "msg", val=b"")
+        self.gm = R.new("ec")
+        if R.call("cp_ers_gen", self.pp).i != R.OK:
+            return False
+        R.call("ep_norm", self.pp, self.pp)
+        for i in range(N):
+            if R.call("cp_ers_gen_key", self.sks[i], self.pks[i]).i != R.OK:
+                return False
+        return True
+
+    def bn_offsets(self):
+        K, bs = self.R.K, self.R.bn_sz
+        if self.linkable:
+            o = K["off_smlers_st_sig"]
+            return [o + K["off_ers_st_c"], o + K["off_ers_st_c"] + bs, o + K["off_ers_st_r"], o + K["off_ers_st_r"] + bs,
+                    K["off_smlers_st_c"], K["off_smlers_st_c"] + bs, K["off_smlers_st_r"], K["off_smlers_st_r"] + bs]
+        return [K["off_ers_st_c"], K["off_ers_st_c"] + bs, K["off_ers_st_r"], K["off_ers_st_r"] + bs]
+
+    def ec_offsets(self):
+        K = self.R.K
+        if self.linkable:
+            o = K["off_smlers_st_sig"]
+            return [o + K["off_ers_st_h"], o + K["off_ers_st_pk"], K["off_smlers_st_tau"]]
+        return [K["off_ers_st_h"], K["off_ers_st_pk"]]
+
+    def sign(self, msg):
+        R = self.R
+        self.msg.val = msg
+        m = R.bytes_in(msg)
+        try:
+            res = R.call(self.pre + "_sig", self.td, self.ring, m, len(msg), self.sks[0], self.pks[0], self.pp)
+            if res.caught or res.i != R.OK:
+                return False
+            R.wr_sz(self.cnt, 1)
+            for i in range(1, self.size):
+                res = R.call(self.pre + "_ext", self.td, self.ring, self.cnt, m, len(msg), self.pks[i], self.pp)
+                if res.caught or res.i != R.OK:
+                    return False
+            return R.rd_sz(self.cnt) == self.size
+        finally:
+            R.free(m)
+
+    def comps(self):
+        cs = [Comp("td", "bn", "sig", self.td), Comp("pp", "ec", "pk", self.pp), self.msg]
+        bn_names = ["c0", "c1", "r0", "r1", "lc0", "lc1", "lr0", "lr1"]
+        ec_names = ["h", "pk", "tau"]
+        for i in range(self.size):
+            b = self.ring + i * self.st
+            for nm, off in zip(bn_names, self.bn_offsets()):
+                cs.append(Comp("%s[%d]" % (nm, i), "bn", "sig", b + off))
+            for nm, off in zip(ec_names, self.ec_offsets()):
+                cs.append(Comp("%s[%d]" % (nm, i), "ec", "pk" if nm == "pk" else "sig", b + off))
+        return cs
+
+    def ver(self):
+        R = self.R
+        m = R.bytes_in(self.msg.val)
+        try:
+            return R.call(self.verfn, self.td, self.ring, self.size, m, len(self.msg.val), self.pp)
+        finally:
+            R.free(m)
+
+    def eqn(self):
+        R = self.R
+        E = R.EC
+        msg = self.msg.val
+        bo, eo = self.bn_offsets(), self.ec_offsets()
+        pp = R.pt(self.pp)
+        if not self.points_ok(pp):
+            return False
+        acc = R.FCv.mul(self.scal(self.td), R.G)
+        members = []
+        for i in range(self.size):
+            b = self.ring + i * self.st
+            sc = [self.scal(b + o) for o in bo]
+            pts = [R.pt(b + o) for o in eo]
+            if not self.points_ok(*pts):
+                return False
+            acc = E.add(acc, pts[0])
+            members.append((sc, pts))
+        if not E.eq(acc, pp):
+            return False
+        und = False
+        if self.linkable:
+            m = R.bytes_in(msg)
+            try:
+                R.call("ec_map", self.gm, m, len(msg))      # hash-to-curve: lower layer (C13)
+            finally:
+                R.free(m)
+            gm = R.pt(self.gm)
+        for sc, pts in members:
+            v = self.orproof(sc[0:2], sc[2:4], [pts[0], pts[1]], [R.G, R.G], msg, False)
+            if v is False:
+                return False
+            und = und or v is None
+            if self.linkable:
+                v = self.orproof(sc[4:6], sc[6:8], [pts[0], pts[2]], [R.G, gm], msg, False)
+                if v is False:
+                    return False
+                und = und or v is None
+        return None if und else True
+
+
+def run_ec(ctx):
+    R = PX(ctx.cfg)
+    rng = ctx.rng
+    ids = R.ep_param_ids()
+    ctx.note("curves", [nm for nm, _ in ids])
+    q = ctx.quick
+    di = 0
+    for ci, (nm, cid) in enumerate(ids):
+        R.set_curve(cid)
+        schemes = [Vbnn(ctx, R), PokDl(ctx, R), SokDl(ctx, R), PokOr(ctx, R),
+                   PokOr(ctx, R, True, False, 0), PokOr(ctx, R, True, False, 1),
+                   PokOr(ctx, R, True, True, 0), PokOr(ctx, R, True, True, 1),
+                   Ers(ctx, R, 1), Ers(ctx, R, 3), Ers(ctx, R, 1, True), Ers(ctx, R, 2, True)]
+        for si, sch in enumerate(schemes):
+            di += 1
+            sch.di = di * 1000
+            if not ctx.begin("%s|setup" % sch.sigfn, [nm, sch.name]):
+                continue
+            try:
+                ok = sch.setup()
+                ctx.check(ok, ctx.cur_key + "|unexpected-error")
+            except MonitorViolation as e:
+                ctx.fail(ctx.cur_key + "|" + e.kind, e.detail)
+                ok = False
+            finally:
+                ctx.end()
+            if not ok:
+                continue
+            # completeness over message lengths (split over shards)
+            heavy = isinstance(sch, Ers)
+            t0 = time.time()
+            if sch.msg_kind == "bytes":
+                for L in (range(ci % 7, 301, 7) if heavy else range(0, 301)):
+                    if sch.mine():
+                        sch.honest(nm, sch.rbytes(L), eq_rate=0.1)
+            else:
+                sch.honest(nm, b"")
+            ctx.add("seconds_completeness:" + sch.name, round(time.time() - t0, 1))
+            # mutation soundness: one owner shard per (curve, scheme); exhaustive bit flips on a third of them
+            if not ctx.mine(di) and q:
+                continue
+            if not sch.honest(nm, sch.rbytes(rng.choice([1, 5, 20])) if sch.msg_kind == "bytes" else b"", "mutation-base"):
+                continue
+            full = ()
+            if (ci + si) % 3 == 0 or not q:
+                scal = [c.name for c in sch.comps() if c.kind in ("bn", "bytes")]
+                full = set(scal if not heavy else scal[:4])
+            t0 = time.time()
+            sch.mutate(nm, full_names=full, sample=0.02 if heavy else 0.05)
+            ctx.add("seconds_mutation:" + sch.name, round(time.time() - t0, 1))
+            sch.finish()
+    ctx.note("functions_exercised", sorted(k for k in R.fn_seen if k.startswith("cp_")))
+    ctx.note("error_codes_seen", {str(k): v for k, v in R.err_codes.items()})
+
+
 def run(ctx, part):
     if part == "ecdsa":
         run_ecdsa(ctx)
+    elif part == "ec":
+        run_ec(ctx)
     else:
         ctx.note("part-not-implemented", part)
